@@ -585,6 +585,7 @@ type FuncContract struct {
 	NoInline bool
 	File     string
 	Trusted  bool // in-repo function whose contract is assumed, body not verified
+	FuncType bool // contract on every value of a named function type (calls through such values)
 	Pure     bool
 }
 
@@ -595,6 +596,7 @@ type PureFunc struct {
 	Body    Expr // nil for ghost (uninterpreted) functions
 	Decr    []Expr
 	Opaque  bool
+	State   bool // ghost state: a mutable abstract field of an object (one parameter), kept in a heap region
 	File    string
 	Pkg     string
 }
@@ -699,8 +701,17 @@ func ParseFile(path, text string, goFile bool) (*File, error) {
 			f.Sorts = append(f.Sorts, SortDecl{rest})
 		case "pure", "ghost", "opaque":
 			// pure func name(params) T = expr      |  ghost func name(params) T
-			r := strings.TrimSpace(strings.TrimPrefix(rest, "func"))
+			isState := false
+			r := strings.TrimSpace(rest)
+			if word == "ghost" && strings.HasPrefix(r, "state") {
+				isState = true
+				r = strings.TrimSpace(strings.TrimPrefix(r, "state"))
+			}
+			r = strings.TrimSpace(strings.TrimPrefix(r, "func"))
 			pf, err := parsePure(r, word != "ghost")
+			if pf != nil {
+				pf.State = isState
+			}
 			if err != nil {
 				return nil, fail(err)
 			}
@@ -722,13 +733,20 @@ func ParseFile(path, text string, goFile bool) (*File, error) {
 		case "func", "extern":
 			r := rest
 			ext := word == "extern"
+			isFT := false
 			if ext {
-				r = strings.TrimSpace(strings.TrimPrefix(r, "func"))
+				if strings.HasPrefix(r, "functype") {
+					isFT = true
+					r = strings.TrimSpace(strings.TrimPrefix(r, "functype"))
+				} else {
+					r = strings.TrimSpace(strings.TrimPrefix(r, "func"))
+				}
 			}
 			fc, err := parseFuncHeader(r)
 			if err != nil {
 				return nil, fail(err)
 			}
+			fc.FuncType = isFT
 			fc.Extern = ext
 			fc.File = path
 			fc.Loops = map[int]*LoopSpec{}
